@@ -25,7 +25,7 @@ def chase(body, local, depth=12):
                 return ('arg', cur)
             return ('none', cur)
         if len(ds) > 1:
-            return ('multi', ds)
+            return ('multi', (cur, ds))
         kind, bb, idx, x = ds[0]
         if kind == 'call':
             return ('call', (bb, x))
